@@ -99,6 +99,9 @@ func propC01(c *Ctx, r *Report) {
 	r.Clauses = append(r.Clauses, shallowWalkerClause)
 	c.runShallowWalker(r, "walker.shallow", inPkgs("spirv"), shallowWalkerExceptions)
 	r.floor("walker.shallow", 2)
+	r.Clauses = append(r.Clauses, breakReachClause)
+	c.runBreakReach(r, "merge.breakreach", "spirv/internal/codegen")
+	r.floor("merge.breakreach", 1)
 	r.Clauses = append(r.Clauses, accumDroppedClause)
 	c.runAccumDropped(r, "accum.dropped", inPkgs("spirv"))
 	r.floor("accum.dropped", 5)
@@ -126,6 +129,9 @@ func propC02(c *Ctx, r *Report) {
 	r.floor("ptrtype.scaware", 3)
 	r.Clauses = append(r.Clauses, "width-named capabilities (E18): in a switch over a scalar bit width the capability constants named in the arm for width N carry N in their name (Float16 / Int16 / ...16BitAccess for 16, Float64 / Int64 for 64, Int8 for 8)")
 	c.runWidthSuffix(r, "width.suffix", "spirv", "Capability")
+	r.Clauses = append(r.Clauses, breakReachClause)
+	c.runBreakReach(r, "merge.breakreach", "spirv/internal/codegen")
+	r.floor("merge.breakreach", 1)
 	r.Clauses = append(r.Clauses, "capability per instruction (E62): a function that builds an instruction whose capability is not implied by Shader (image queries, fine / coarse derivatives, subgroup operations, ray queries, float atomic add, integer dot products - table from the SPIR-V specification) declares that capability itself, or every one of its callers (to depth 3) does")
 	c.runCapOpcode(r, "cap.opcode", "spirv/internal/codegen", map[string]string{
 		"spirv/internal/codegen.atomicOpcode:OpAtomicFAddEXT": "AtomicFloat32AddEXT is declared when the atomic<f32> type is emitted (emitType, AtomicType arm), and the pointer operand of every float atomic has that type",
@@ -169,3 +175,5 @@ var genFormatExceptions = map[string]string{
 	"hlsl/internal/codegen.Writer.samplerBindingArrayInfoFromExpression:nagaGroup%dSamplerIndexArray#1": "re-spelling, at a use, of the name that writeSamplerIndexBuffer obtains from the namer; the naga prefix is reserved (names.helpers)",
 	"msl/internal/codegen.wrappedMathSuffix:vec%d_%s#1":                                                  "a suffix appended to a reserved naga_ helper name, never a name of its own",
 }
+
+const breakReachClause = "break reaches the merge block (E69): an emitter that makes its merge label the break target marks that merge block OpUnreachable only under a condition that looks at branches to the label - an arm ending in break ends its block with a branch to the merge block"
